@@ -76,51 +76,55 @@ def slotted(  # noqa: C901
             ) from None
 
         _stack.add(key)
+        try:
 
-        if (
-            sys.version_info >= (3, 10) and constants.PKG_NAME not in cls.__module__
-        ):  # pragma: no cover
-            warnings.warn(
-                f"You are using Python {sys.version}. "
-                "Python 3.10 introduced native support for slotted dataclasses. "
-                "This is the preferred method for adding slots.",
-                stacklevel=2,
-            )
+            if (
+                sys.version_info >= (3, 10) and constants.PKG_NAME not in cls.__module__
+            ):  # pragma: no cover
+                warnings.warn(
+                    f"You are using Python {sys.version}. "
+                    "Python 3.10 introduced native support for slotted dataclasses. "
+                    "This is the preferred method for adding slots.",
+                    stacklevel=2,
+                )
 
-        cls_dict = {**cls.__dict__}
-        # Create only missing slots
-        inherited_slots = set().union(*(getattr(c, "__slots__", ()) for c in cls.mro()))
+            cls_dict = {**cls.__dict__}
+            # Create only missing slots
+            inherited_slots = set().union(*(getattr(c, "__slots__", ()) for c in cls.mro()))
 
-        field_names = {f.name: ... for f in dataclasses.fields(cls) if f.name}
-        if dict:
-            field_names["__dict__"] = ...
-        if weakref:
-            field_names["__weakref__"] = ...
-        cls_dict["__slots__"] = (*(f for f in field_names if f not in inherited_slots),)
+            field_names = {f.name: ... for f in dataclasses.fields(cls) if f.name}
+            # A base without `__slots__` already gives its instances a `__dict__` and a
+            #   `__weakref__`: asking for a second one is an error.
+            if dict and not any(b.__dictoffset__ for b in cls.__bases__):
+                field_names["__dict__"] = ...
+            if weakref and not any(b.__weakrefoffset__ for b in cls.__bases__):
+                field_names["__weakref__"] = ...
+            cls_dict["__slots__"] = (*(f for f in field_names if f not in inherited_slots),)
 
-        # Erase filed names from class __dict__
-        for f in field_names:
-            cls_dict.pop(f, None)
+            # Erase filed names from class __dict__
+            for f in field_names:
+                cls_dict.pop(f, None)
 
-        # Erase __dict__ and __weakref__
-        cls_dict.pop("__dict__", None)
-        cls_dict.pop("__weakref__", None)
+            # Erase __dict__ and __weakref__
+            cls_dict.pop("__dict__", None)
+            cls_dict.pop("__weakref__", None)
 
-        # Pickle fix for frozen dataclass as mentioned in https://bugs.python.org/issue36424
-        # Use only if __getstate__ and __setstate__ are not declared and frozen=True
-        if (
-            all(param not in cls_dict for param in ["__getstate__", "__setstate__"])
-            and cls.__dataclass_params__.frozen
-        ):
-            cls_dict["__setstate__"] = _slots_setstate
+            # Pickle fix for frozen dataclass as mentioned in https://bugs.python.org/issue36424
+            # Use only if __getstate__ and __setstate__ are not declared and frozen=True
+            if (
+                all(param not in cls_dict for param in ["__getstate__", "__setstate__"])
+                and cls.__dataclass_params__.frozen
+            ):
+                cls_dict["__setstate__"] = _slots_setstate
 
-        # Prepare new class with slots
-        new_cls = cls.__class__(cls.__name__, cls.__bases__, cls_dict)
-        new_cls.__qualname__ = cls.__qualname__
-        new_cls.__module__ = cls.__module__
-
-        _stack.clear()
-        return new_cls
+            # Prepare new class with slots
+            new_cls = cls.__class__(cls.__name__, cls.__bases__, cls_dict)
+            new_cls.__qualname__ = cls.__qualname__
+            new_cls.__module__ = cls.__module__
+            return new_cls
+        finally:
+            # Whatever happened, this class is no longer being rebuilt.
+            _stack.discard(key)
 
     return wrap if _cls is None else wrap(_cls)
 
